@@ -121,8 +121,8 @@ def plumbing(entry: int, ahb_beh: int, cond_beh: int) -> bool:
 # ---------------------------------------------------------------------------------------------------------------------
 PREFIX = (("", "none"), ("Muss ", "mm"), ("muss", "mm"), ("M", "mm"), ("Soll\t", "mm"), ("k ", "mm"), ("X", "po"), ("O ", "po"), ("U", "po"))
 WELL = ("[1]", "[1] U [2]", "([1]O[2])[901]", "[3P]∧[UB1]", "[17P1..5] ⊻ [2]", " [1]\t")
-MALFORMED = ("[1] U", "([1]", "[1])", "[]", "[1] [", "[P1]", "[1]U U[2]", "1", "[1] O )", "[1P1..0]", "[UB4]", "()", "[1]∧", "∧[1]")
-GARBAGE = ("foo", "", "   ", "Mus[2]", "Muss[2]C[3]", "[1] § [2]", "Muss Muss", "\x00", "M[1]S")
+MALFORMED = ("[1] U", "([1]", "[1])", "[]", "[1] [", "[P1]", "[1]U U[2]", "1", "[1] O )", "[1P1..0]", "[UB4]", "()", "[1]∧", "∧[1]", "[٣]", "[1P٣..5]", "[1] % [2]")
+GARBAGE = ("foo", "", "   ", "Mus[2]", "Muss[2]C[3]", "[1] § [2]", "Muss Muss", "\x00", "M[1]S", "%d", "Muss [100%]", "X [1] %s [2]", "{0}", "Muss {", "[1]\\", "%(x)s")
 
 
 def string_cases():
@@ -197,6 +197,10 @@ PAIRS = (
     ("Muss [12] U [3]", "Mu ss [12] U [3]"),
     ("Muss [3P1..2] O [4]", "Muss [3P1. .2] O [4]"),
     ("Kann [3P] Muss [1]", "Kann [3 P] Muss [1]"),
+    # ... or only by the letter case of a case-SENSITIVE token (package marker, time condition)
+    ("Muss [5P] U [1]", "Muss [5p] U [1]"),
+    ("X [UB1] U [7]", "X [ub1] U [7]"),
+    ("Muss [12] U ([3P0..1] O [UB3])", "Muss [12] u ([3p0..1] o [ub3])"),
 )
 
 
@@ -207,6 +211,8 @@ def history_pairs(idx: int, malformed_first: bool) -> bool:
     """
     idx = xs.pick(idx, 0, len(PAIRS))
     good, bad = PAIRS[idx]
+    xs.REAL_LRU = True  # the parsers' caches really cache during this path and start empty
+    xs.clear_ahbicht_caches()
     with xs.nt():
         env.install_parser_proxies()
         env.configure([valid_glue._Rc(0), valid_glue._Fc(0), valid_glue._Hints(), env.YResolver({}, [], env.Log())])
@@ -223,5 +229,5 @@ def history_pairs(idx: int, malformed_first: bool) -> bool:
     ok_good = g == "tree" or (isinstance(g, tuple) and g[0] == "tuple" and g[1][0] is True)
     ok_bad = isinstance(b, tuple) and b[0] == "tuple" and b[1][0] is False and isinstance(b[1][1], str)
     if not ok_good or not ok_bad:
-        return xs.fail(f"validated in the order {order}: well-formed '{good}' -> {g}; malformed '{bad}' (whitespace inside a token) -> {b}, expected (False, message)", idx=idx, malformed_first=malformed_first)
+        return xs.fail(f"validated in the order {order}: well-formed '{good}' -> {g}; malformed near-twin '{bad}' -> {b}, expected (False, message)", idx=idx, malformed_first=malformed_first)
     return True
